@@ -324,6 +324,9 @@ def oracle_nav(rep, cx, case, stats):
     for bad in ob['eqhash']['same_bad']:
         rep.fail('objects denoting the same stored entity reached by different routes are not equal / do not hash alike',
                  case, {'pair': bad})
+    for bad in ob['eqhash'].get('lex_bad', []):
+        rep.fail('an entity reached by navigation (%s) carries another lexicon than the same entity obtained from the Wordnet'
+                 % bad[0], case, {'entity': bad[1], 'lexicon rowid by navigation': bad[2], 'from the Wordnet': bad[3]})
     for bad in ob['eqhash']['diff_bad']:
         rep.fail('different stored entities compare equal', case, {'pair': bad})
     for s in ob['senses']:
